@@ -69,5 +69,5 @@ def make(g, pid, families, assumptions, labels, keep=lambda spec: True, extra_fd
         log('paths=%d queries=%d solver=%.1fs violations(paths)=%d new=%d known=%d -> exit %d' % (
             agg['paths'], agg['queries'], agg['solver_s'], len(agg['violations']), new, nknown, code))
         return code
-    g.update(PROPERTY=pid, BUDGET={'quick': 900, 'thorough': 3000}, ASSUMPTIONS=assumptions, instances=instances, run_instance=run_instance,
+    g.update(PROPERTY=pid, BUDGET={'quick': 900, 'thorough': 1500}, ASSUMPTIONS=assumptions, instances=instances, run_instance=run_instance,
              replay=replay, replay_file=replay_file, finish=finish)
